@@ -47,7 +47,43 @@ class InjBase(BaseException):
     pass
 
 
-INJ_CLASSES = [Inj, InjYaml, InjOS, InjValue, InjType, InjAttr, InjLookup, InjMarked, InjBase]
+class InjCtor(yaml.constructor.ConstructorError):      # the library's own error families, raised by USER code
+    pass
+
+
+class InjRepr(yaml.representer.RepresenterError):
+    pass
+
+
+class InjMarkedM(yaml.MarkedYAMLError):                # ... carrying marks of its own
+    pass
+
+
+INJ_CLASSES = [Inj, InjYaml, InjOS, InjValue, InjType, InjAttr, InjLookup, InjMarked, InjBase, InjCtor, InjRepr, InjMarkedM]
+CALLBACK_CLASSES = [0, 1, 7, 9, 10, 11]     # what a user constructor / representer is run with, each of them per invocation
+
+
+def make_injected(icls, i, k=0):
+    """The exception instance for invocation index i (k > 0: a LATER failure of a stream that stays broken)."""
+    cls = INJ_CLASSES[icls]
+    text = 'injected at %d' % i if k == 0 else 'later failure %d after %d' % (k, i)
+    if cls is InjMarked:
+        return cls('user context', None, text, None)            # context and problem, no marks
+    if cls is InjCtor:
+        return cls(None, None, text, None)                      # problem only, no marks
+    if cls is InjMarkedM:
+        m = yaml.Mark('user-mark', 3, 1, 2, None, None)
+        return cls('user context', m, text, m)
+    if cls is InjOS:
+        return cls(5, text)
+    return cls(text, i, k)
+
+
+def exc_content(e):
+    """Everything a caller can read off an exception object: type, args, attributes (marks included), str()."""
+    d = getattr(e, '__dict__', {})
+    return md5('%s.%s|%r|%s|%s' % (type(e).__module__, type(e).__qualname__, e.args,
+                                   ','.join('%s=%s' % (k, canon(d[k])) for k in sorted(d)), e))
 
 
 class Ctl:
@@ -57,12 +93,17 @@ class Ctl:
     def __init__(self):
         self.reset()
 
-    def reset(self, fail_at=None, exc=None):
+    def reset(self, fail_at=None, exc=None, later=None):
+        """later: None = one-shot fault; a function k -> exception instance = the stream / callback STAYS broken: every
+        invocation after fail_at fails too, each with a distinct instance"""
         self.n = 0
         self.log = []
         self.fail_at = fail_at
         self.exc = exc
+        self.later = later
         self.fired = False
+        self.content = None
+        self.later_raised = 0
 
     def tick(self, kind):
         i = self.n
@@ -70,7 +111,11 @@ class Ctl:
         self.log.append(kind)
         if self.fail_at is not None and i == self.fail_at:
             self.fired = True
+            self.content = exc_content(self.exc)        # what the exception looks like when it is raised
             raise self.exc
+        if self.fail_at is not None and self.later is not None and i > self.fail_at:
+            self.later_raised += 1
+            raise self.later(self.later_raised)
 
 
 CTL = Ctl()
@@ -582,6 +627,8 @@ def _walk(o, memo, depth, out, path):
         out.append('%s=fn:%s.%s' % (path, getattr(f, '__module__', '?'), getattr(f, '__qualname__', repr(type(o)))))
     elif isinstance(o, types.ModuleType):
         out.append('%s=module:%s' % (path, o.__name__))
+    elif isinstance(o, (io.StringIO, io.BytesIO)):      # module-level buffers: their CONTENT is state
+        out.append('%s=buffer:%s:%r:%d' % (path, type(o).__name__, o.getvalue(), o.tell()))
     else:
         d = getattr(o, '__dict__', None)
         out.append('%s=obj:%s.%s' % (path, type(o).__module__, type(o).__qualname__))
